@@ -290,6 +290,9 @@ func Arith(op string, l, r any) (any, error) {
 		}
 		if x, ok := l.(string); ok {
 			if y, ok := r.(string); ok {
+				if y == "" && !utf8.ValidString(x) {
+					return nil, unsup("splitting invalid UTF-8 into characters")
+				}
 				return splitStr(x, y), nil
 			}
 		}
@@ -339,6 +342,19 @@ func repeatStr(s string, n float64) (any, error) {
 	return strings.Repeat(s, k), nil
 }
 
+// canonicalSpelling: the literal is spelled the way the value would be printed after a computation.
+func canonicalSpelling(s string) bool {
+	if !strings.ContainsAny(s, ".eE") {
+		b, ok := new(big.Int).SetString(s, 10)
+		return ok && b.String() == s
+	}
+	f, err := strconv.ParseFloat(s, 64)
+	if err != nil || math.IsInf(f, 0) || f == math.Trunc(f) && math.Abs(f) < 1e15 {
+		return false
+	}
+	return math.Abs(f) >= 1e-5 && math.Abs(f) < 1e15 && strconv.FormatFloat(f, 'f', -1, 64) == s
+}
+
 func splitStr(s, sep string) any {
 	if s == "" {
 		return []any{}
@@ -380,6 +396,9 @@ func Negate(v any) (any, error) {
 	if _, ok := v.(Opaque); ok {
 		return nil, unsup("negating a caught error message")
 	}
+	if n, ok := v.(json.Number); ok && !canonicalSpelling(string(n)) {
+		return nil, unsup("negating a number literal with a non-canonical spelling (its text is kept)")
+	}
 	switch x := norm(v).(type) {
 	case int, *big.Int:
 		return normBig(new(big.Int).Neg(toBig(x))), nil
@@ -416,6 +435,9 @@ func writeJSON(sb *strings.Builder, v any) error {
 	case *big.Int:
 		sb.WriteString(x.String())
 	case json.Number:
+		if !canonicalSpelling(string(x)) {
+			return unsup("text of a number literal with a non-canonical spelling")
+		}
 		sb.WriteString(string(x))
 	case float64:
 		switch {
@@ -431,6 +453,9 @@ func writeJSON(sb *strings.Builder, v any) error {
 			return unsup("text of a float outside the plain-notation range")
 		}
 	case string:
+		if !utf8.ValidString(x) {
+			return unsup("text of a string with invalid UTF-8")
+		}
 		writeJSONString(sb, x)
 	case Opaque:
 		return unsup("text of a caught error message")
@@ -450,6 +475,9 @@ func writeJSON(sb *strings.Builder, v any) error {
 		for i, k := range SortedKeys(x) {
 			if i > 0 {
 				sb.WriteByte(',')
+			}
+			if !utf8.ValidString(k) {
+				return unsup("text of a key with invalid UTF-8")
 			}
 			writeJSONString(sb, k)
 			sb.WriteByte(':')
@@ -517,6 +545,9 @@ func Length(v any) (any, error) {
 		return len(x), nil
 	case map[string]any:
 		return len(x), nil
+	}
+	if n, ok := v.(json.Number); ok && !canonicalSpelling(string(n)) {
+		return nil, unsup("length/abs of a number literal with a non-canonical spelling (its text may be kept)")
 	}
 	switch x := norm(v).(type) {
 	case int, *big.Int:
